@@ -327,4 +327,42 @@ pub(crate) mod verif_merkle {
     c04_reuse!(c04_reuse_ietf_2_then_3, 2, 3, 4, Version::RfcDraft13, 2, 12);
     //@ harness c04_reuse_google_1_then_3 tier=thorough shape="classic, batch of 1 then batch of 3, index 0" required=no timeout=800
     c04_reuse!(c04_reuse_google_1_then_3, 1, 3, 4, Version::Google, 0, 12);
+
+    /// Representation invariant behind tree reuse: after reset() *every* level is empty (compute_root
+    /// appends to the inner levels and get_paths walks levels until an empty one, so a stale inner
+    /// node from an earlier, larger batch would corrupt the next batch).  One step from any batch
+    /// shape covers histories of any length.
+    pub fn reset_body<const N: usize, const LL: usize>(version: Version) {
+        ring::digest::model_reset(false);
+        let leaves: [[u8; LL]; N] = [[0u8; LL]; N].map(|_| vany_bytes::<LL>());
+        let (mut tree, root) = build::<N, LL>(version, &leaves);
+        core::mem::forget(root);
+        tree.reset();
+        vassert!(tree.is_empty(), "VERIF:C04:reset-empties-the-leaf-level");
+        let mut l = 0;
+        while l < 4 {
+            if l < tree.levels.len() {
+                vassert!(tree.levels[l].is_empty(), "VERIF:C04:reset-empties-every-level");
+            }
+            l += 1;
+        }
+        vcover!(tree.levels.len() >= 2, "COVER:merkle-end");
+        core::mem::forget(tree);
+    }
+
+    macro_rules! c04_reset {
+        ($name:ident, $n:expr, $ver:expr, $unwind:expr) => {
+            #[cfg_attr(kani, kani::proof)]
+            #[cfg_attr(kani, kani::unwind($unwind))]
+            #[cfg_attr(not(kani), test)]
+            fn $name() {
+                reset_body::<$n, 4>($ver);
+            }
+        };
+    }
+    //@ family c04_reset props=C04,C02 mode=strict mod=merkle::verif_merkle must_cover=COVER:merkle-end
+    //@ harness c04_reset_after_3_google tier=quick shape="classic, batch of 3 (two inner levels), then reset: all levels empty" timeout=600
+    c04_reset!(c04_reset_after_3_google, 3, Version::Google, 12);
+    //@ harness c04_reset_after_2_ietf tier=quick shape="IETF, batch of 2, then reset: all levels empty"
+    c04_reset!(c04_reset_after_2_ietf, 2, Version::RfcDraft13, 12);
 }
